@@ -94,7 +94,7 @@ def one(ctx, spec, inputs, runner, label, loop_ref=None, deterministic=True):
 
 
 def run(ctx):
-    n = 300 if ctx.tier == "quick" else 900
+    n = 300 if ctx.tier == "quick" else 9000
     if ctx.replay:
         c = ctx.replay["case"]
         one(ctx, c["spec"], c["inputs"], c["runner"], "replay", deterministic=False)
